@@ -162,7 +162,7 @@ static void on_signal(int sig)
     static volatile sig_atomic_t hangs = 0;
     if (sig == SIGALRM)
         hangs++;
-    if (g_in_exec && g_contained < 2000 && hangs <= 5)
+    if (g_in_exec && g_contained < 1000000 && hangs <= 3)
     {
         g_in_exec   = 0;
         g_crash_sig = sig;
@@ -266,7 +266,7 @@ struct Engine
         g_cur_hist = hist;
         if (op)
             g_cur_hist.push_back(*op);
-        alarm(10);
+        alarm(3);
         g_now_ns        = BASE_NS;
         ValStats before = g_vs;
         if (containment())
@@ -1057,8 +1057,9 @@ struct Engine
                         }
                     }
                 }
-                if (states > a.max_states || time_up())
+                if (states > a.max_states || time_up() || viols.size() >= 5)
                 {
+                    // (a handful of witnesses is enough: on a broken tree corrupted states multiply)
                     capped = true;
                     break;
                 }
